@@ -692,6 +692,37 @@ def invalid_text_probe(ctx):
     ctx.extra["invalid_text_error_class"] = {repr(t): {b: list(res[b][i]) for b in BACKENDS} for i, t in enumerate(bad)}
 
 
+def very_deep_probe(ctx):
+    """Values nested beyond orjson's DECODER limit (1024) and beyond what can be pickled: built, encoded, decoded and measured
+    inside the workers.  Judged directly against the property: whatever a backend encoded must decode to the same value
+    (same depth, same leaf) under each backend, in one NDJSON frame."""
+    deep = [(kind, d, leaf) for d in (900, 1024, 1025, 1100) for kind in ("array", "object", "mixed") for leaf in (1, "\u2028")]
+    first = {b: run_worker(b, {"deep": deep, "kwsets": KWSETS})["deep"] for b in BACKENDS}
+    cross_req = {b: [r.get("text") for r in first[b] if r.get("enc") == "ok"] for b in BACKENDS}
+    other = {"orjson": "stdlib", "stdlib": "orjson"}
+    cross = {b: run_worker(other[b], {"deep_loads": cross_req[b], "kwsets": KWSETS})["deep_loads"] for b in BACKENDS}
+    for b in BACKENDS:
+        ci = iter(cross[b])
+        for (kind, d, leaf), r in zip(deep, first[b]):
+            case = {"value": f"{kind} nested {d} deep around {leaf!r}", "backend": b, "kwargs": "default"}
+            ctx.case(case, nontrivial=True)
+            ctx.count("very-deep:" + str(d))
+            if r.get("enc") != "ok":
+                ctx.count("very-deep-not-encodable:" + b)      # no backend-made text: nothing to demand
+                continue
+            ctx.spec_total += 1
+            if "\n" in r["text"] or "\r" in r["text"]:
+                ctx.spec_violation(f"line-break-in-dumps-output:{b}/very-deep", case, "raw line break in a compact encoding")
+            for where, rr in ((b, r), (other[b], next(ci))):
+                ctx.spec_total += 1
+                if rr.get("dec") != "ok":
+                    ctx.spec_violation(f"valid-deep-json-not-decoded:enc={b},dec={where}", case,
+                                       f"{b} encoded it ({len(r['text'])} chars), {where} answered {rr.get('dec')}")
+                elif rr["depth"] != d or rr["leaf"] != leaf:
+                    ctx.spec_violation(f"roundtrip-differs:very-deep:enc={b},dec={where}", case,
+                                       f"depth {rr['depth']} leaf {rr['leaf']!r}, expected {d} / {leaf!r}")
+
+
 def run(ctx):
     lib.standard_obligations(ctx, GEN, TARGETS)
     spec = lib.Driver("C17Spec")
@@ -725,6 +756,7 @@ def run(ctx):
         ctx.escalated = True
         go()
     invalid_text_probe(ctx)
+    very_deep_probe(ctx)
     ctx.exhaustive = False
     if ctx.thorough:
         lib.coqchk(ctx, "C17")
